@@ -92,7 +92,7 @@ def cylinder_aabb(cylinder2origin, radius, length):
     # AABB of a cylinder is the same as the AABB of its caps,
     # see https://iquilezles.org/articles/diskbbox/
     axis = cylinder2origin[:3, 2]
-    extent = 0.5 * length * np.abs(axis) + radius * np.sqrt(1.0 - axis * axis)
+    extent = 0.5 * length * np.abs(axis) + radius * np.sqrt(np.maximum(0.0, 1.0 - axis * axis))
     return cylinder2origin[:3, 3] - extent, cylinder2origin[:3, 3] + extent
 
 
@@ -170,7 +170,7 @@ def disk_aabb(center, radius, normal):
     maxs : array, shape (3,)
         Maximum coordinates.
     """
-    e = radius * np.sqrt(1.0 - normal * normal)
+    e = radius * np.sqrt(np.maximum(0.0, 1.0 - normal * normal))
     return center - e, center + e
 
 
@@ -199,7 +199,7 @@ def cone_aabb(cone2origin, radius, height):
     pa = cone2origin[:3, 3]
     pb = cone2origin[:3, 3] + height * cone2origin[:3, 2]
     a = pb - pa
-    e = np.sqrt(1.0 - a * a / (height * height))
+    e = np.sqrt(np.maximum(0.0, 1.0 - a * a / (height * height)))
     return np.minimum(pa - e * radius, pb), np.maximum(pa + e * radius, pb)
 
 
